@@ -7,8 +7,10 @@ sites), i.e. one mutex critical section / one select decision each:
 
 * `start i`      — caller `i` enters `DC.Invoke` → `acquire` (point `acq.start`).
 * `enter i`      — critical section at the top of `acquire`: pop a free connection (→ `check c`),
-                   or `total++` and create a connection (→ `creating c`), or register a waiter key and
-                   capture the stuck channel (→ `waiting k gen`).
+                   or `total++` (reserve a slot, → `reserved`), or register a waiter key and capture the
+                   stuck channel (→ `waiting k gen`).
+* `mk i`         — outside the critical section: `nextConn.Inc()` + `createConnection` (the supervisor
+                   goroutine is started), → `creating c` with the next connection id.
 * `check i`      — `c.alive(r)` after the pop: dead → retry, else hand out.
 * `cwake i b`    — the creation select takes branch `b` (ready / dead / caller ctx done).
 * `wwake i b`    — the waiter select takes branch `b` (channel / stuck / ctx).
@@ -41,6 +43,7 @@ inductive Why | stuck | ctx
 
 inductive PC
   | idle | start
+  | reserved
   | check (c : Nat) | creating (c : Nat)
   | waiting (k g : Nat) | giveup (k : Nat) (w : Why)
   | using (c : Nat) | done
@@ -77,7 +80,7 @@ inductive Fin | ok | err | retry
   deriving DecidableEq, Repr
 
 inductive Action
-  | start (i : Nat) | enter (i : Nat) | check (i : Nat)
+  | start (i : Nat) | enter (i : Nat) | mk (i : Nat) | check (i : Nat)
   | cwake (i : Nat) (b : Br) | wwake (i : Nat) (b : Wb)
   | giveup (i : Nat) (k : Option Nat)
   | finish (i : Nat) (r : Fin) (k : Option Nat)
@@ -139,12 +142,18 @@ def step (cfg : Cfg) (s : State) : Action → Option State
         | c :: fs => some (setPc { s with free := fs } i x (.check c))
         | [] =>
           if s.max = 0 ∨ s.total < s.max then
-            some (setPc { s with total := s.total + 1,
-                                 conns := s.conns ++ [{ dead := false, ready := false, orphan := false }] }
-                        i x (.creating s.conns.length))
+            some (setPc { s with total := s.total + 1 } i x .reserved)
           else
             some (setPc { s with reqs := s.reqs ++ [s.nextKey], nextKey := s.nextKey + 1 }
                         i x (.waiting s.nextKey s.gen))
+      else none
+    | none => none
+  | .mk i =>
+    match s.callers[i]? with
+    | some x =>
+      if x.pc = .reserved then
+        some (setPc { s with conns := s.conns ++ [{ dead := false, ready := false, orphan := false }] }
+                    i x (.creating s.conns.length))
       else none
     | none => none
   | .check i =>
@@ -271,6 +280,9 @@ def holders (s : State) (c : Nat) : Nat := nCallers s c + nFree s c + nInbox s c
 
 def liveCount (s : State) : Nat := s.conns.countP (fun x => !x.dead)
 
+/-- Callers that have reserved a slot (`total++`) and have not yet created their connection. -/
+def nReserved (s : State) : Nat := s.callers.countP (fun x => x.pc == .reserved)
+
 /-- A waiter key has a live reader: some caller is parked on it or is giving up on it (and will poll). -/
 def hasReader (s : State) (k : Nat) : Bool :=
   s.callers.any (fun x => match x.pc with
@@ -279,10 +291,10 @@ def hasReader (s : State) (k : Nat) : Bool :=
     | _ => false)
 
 /-- The property as a decidable monitor on one state (C27 + C28): the total is the number of live
-connections and respects the limit; every connection has at most one holder; every live connection
+connections plus reserved slots and respects the limit; every connection has at most one holder; every live connection
 has exactly one; every connection in a channel has a live reader. -/
 def holdsB (s : State) : Bool :=
-  s.total == liveCount s &&
+  s.total == liveCount s + nReserved s &&
   (s.max == 0 || s.total ≤ s.max) &&
   (List.range s.conns.length).all (fun c =>
     holders s c ≤ 1 && (isDead s c || holders s c == 1)) &&
